@@ -35,6 +35,8 @@ def build_spec(sn, same=False):
         K(sn, 'B9'): fn('ISNUMBER', cell(sn, 'A1')), K(sn, 'B10'): fn('ISERROR', cell(sn, 'B1')), K(sn, 'B11'): fn('ISBLANK', cell(sn, 'A9')),
         K(sn, 'B12'): fn('NOT', fn('ISTEXT', cell(sn, 'A3'))), K(sn, 'B13'): fn('AND', cell(sn, 'A5'), fn('ISNUMBER', cell(sn, 'A2'))),
         K('T', 'A1'): op('+', cell(sn, 'A1'), num(1)),
+        # a range with several unpopulated cells (they exist only through the range node)
+        K(sn, 'A20'): const(('n', 1.0)), K(sn, 'A22'): const(('n', 2.0)), K(sn, 'B20'): fn('SUM', rng(sn, 'A20:A25')),
         K(U, 'A1', C): const(('n', 10.0)), K(U, 'B1', C): op('*', cell(sn, 'A1'), cell(U, 'A1', C)), K(U, 'A3', C): const(('t', 'other book')),
     }
     arrays = {
@@ -56,6 +58,8 @@ def cases(tier):
                     yield ['write', sn, origin, over, target]
                     if sn in ('S', 'My Data', "It's"):
                         yield ['write', sn, origin, over, target, 'same-sheet-name']
+                    if sn in ('S', 'x-y') and target != 'disk' and origin == 'loads':
+                        yield ['write', sn, origin, over, target, 'prewrite']
 
 
 def convert(v):
@@ -76,7 +80,8 @@ def convert(v):
 
 def run_case(case):
     _, sn, origin, over, target = case[:5]
-    same = len(case) > 5
+    same = len(case) > 5 and case[5] == 'same-sheet-name'
+    prewrite = len(case) > 5 and case[5] == 'prewrite'      # a solution with the sparse range overridden is written first, into the same books
     import formulas, openpyxl
     import numpy as np
     import schedula as sh
@@ -85,7 +90,7 @@ def run_case(case):
     from xl.evalcell import exc_name
     spec = build_spec(sn, same)
     U = sn if same else 'U'
-    desc = dict(sheet=sn, origin=origin, over=over, target=target, same=same)
+    desc = dict(sheet=sn, origin=origin, over=over, target=target, same=same, prewrite=prewrite)
     fails, ex, oc = [], 0, set()
     cwd = os.getcwd()
     with X.Scratch() as d:
@@ -105,9 +110,13 @@ def run_case(case):
             inputs = {X.lib_id(B, sn, 'A1'): 99, X.lib_id(B, sn, 'A3'): '=y'} if over else {}
             sol = m.calculate(inputs)
             ex += 1
+            sol_r = m.calculate(dict(inputs, **{X.lib_id(B, sn, 'A20:A25'): [[11], [12], [13], [14], [15], [16]]})) if prewrite else None
             if target == 'fresh':
-                books = m.write(solution=sol)
+                books = m.write(solution=sol_r) if prewrite else None       # the returned books are written again below
+                books = m.write(books=books, solution=sol) if prewrite else m.write(solution=sol)
             elif target == 'loaded':
+                if prewrite:
+                    m.write(books=m.books, solution=sol_r)
                 books = m.write(books=m.books, solution=sol)
             else:
                 out = os.path.join(d, 'out')
@@ -120,6 +129,10 @@ def run_case(case):
                 diff = m.compare(*files, solution=sol)
                 if diff:
                     fails.append(Fail('compare-reports-difference', got=str(diff[:2])[:200], exp='[]', **desc))
+                for f1 in files:                # each written file on its own
+                    diff = m.compare(f1, solution=sol)
+                    if diff:
+                        fails.append(Fail('compare-reports-difference', got=str(diff[:2])[:200], exp='[]', subset=os.path.basename(f1), **desc))
                 # a different solution written over the same files, compared again in the same process
                 sol_b = m.calculate({X.lib_id(B, sn, 'A1'): 7, X.lib_id(B, sn, 'A5'): False})
                 m.write(solution=sol_b, dirpath=out)
